@@ -140,6 +140,7 @@ var (
 // observation sockets of the resolver streams (udp rotations): every candidate backend address is bound, so that
 // WHO RECEIVES a dispatch can be observed on the wire, not only the rotation's internal lists
 var vResObs = map[string]*net.UDPConn{}
+var vRR2 []*RoundRobinBackend
 
 func vResObsClose() {
 	for k, c := range vResObs {
@@ -453,6 +454,18 @@ func init() {
 		vRR.AddBackendChangeListener(vRRIndex)
 		return "ok"
 	})
+	// res2 join <proto> <host:port>: ANOTHER rotation (another listener naming the same pool) subscribes to a host name the
+	// resolver already knows, possibly while it has addresses; the first rotation must not notice
+	vReg("res2 join", func(a []string) string {
+		base := runtime.NumGoroutine()
+		rr2, err := CreateRoundRobinBackend("127.0.0.1:0", []string{a[0] + "://" + unhx(a[1])}, func(conn net.Conn) {})
+		if err != nil {
+			return "err"
+		}
+		vRR2 = append(vRR2, rr2)
+		waitGoroutines(base)
+		return rrState()
+	})
 	vReg("res2 ok", func(a []string) string {
 		addrs := make([]string, 0)
 		for _, x := range a[1:] {
@@ -473,6 +486,10 @@ func init() {
 		if vRR != nil {
 			vRR.Close()
 		}
+		for _, r := range vRR2 {
+			r.Close()
+		}
+		vRR2 = nil
 		vResObsClose()
 		return "ok"
 	})
